@@ -516,6 +516,7 @@ func init() {
 			"general (one third): documents of the C01 generator (pango engine). links (two thirds): 2-10 blocks (headings h1-h6, paragraphs with an optional link to #a..#d / a missing id / an external URL, forced page breaks) with ids drawn from four names (duplicates on purpose), bookmark-level / bookmark-label / bookmark-state overrides, per-block transforms (incl. singular), zero-size boxes, gradients, dashed rounded borders, opacity, floats; <title>/<meta> author(s), description, keywords, generator; zoom in {0.1, 1, 2.5}; page height in {60,100,200,1000}. " +
 			"Independent models: anchors = the first box in page/tree order per id, defined on that page and nothing else; links to existing ids emitted, links to missing ids dropped, external links emitted; bookmark outline = pre-order flattening equals the declared (label, level) sequence in document order, depth given by the level-stack algorithm, open/closed state kept; metadata forwarded (keywords split on commas, stripped, de-duplicated). " +
 			"Links family: @page carries bleed / marks in half of the cases, every <a> has a background of its own colour, and the rectangle of each link must be the device-space bounding box of that background (slack 1.5 CSS px). " +
+			"The blocks may sit inside a transformed element. " +
 			"Non-trivial: at least one Paint and at least one bookmark or internal link.",
 		ImportantLabels: []string{"link-geometry", "link-geometry-with-bleed", "kind:general", "kind:links", "pages>1", "duplicate-ids", "link-to-missing", "link-to-existing", "external-link", "bookmarks>1", "zoom:0.1", "zoom:2.5"},
 		Assumptions:     []string{"crashes while rendering belong to C01: such cases are excluded here and counted"},
